@@ -210,6 +210,20 @@ CLAIMED['C20'] = dict(
   note='Known finding: FeliCa Lite-S protect derives the key with .encode("ascii"), authenticate does not (suite asserts str passwords for protect). '
        'Trusted: pyDes, vendor authentication procedures.',
   technique='authorisation dominance on the CFG + sibling expression agreement by finite evaluation (ast)')
+CLAIMED['C16'] = dict(
+  category='other',
+  text='For all 30 concrete tag classes and every public operation of the tag and its NDEF object (about 850 class-rooted entry points) the '
+       'interprocedural exception-escape analysis computes what can reach the application by explicit raise, re-raise or assert; allowed are '
+       'the TagCommandError family, IOError of a broken host link, argument preconditions whose guard mentions only parameters (literal call '
+       'arguments prune infeasible guards), the documented RuntimeError of MAC read/write without authentication, the documented errors of '
+       'the octets setter and ndeflib errors of records. The CommunicationError->reason mapping sites are checked for agreement and totality, '
+       'the retry loops for boundedness and break-after-success, and nfc.tag.activate for the CommunicationError boundary. Duplicate application '
+       'of a retried state-changing command on the tag is not decided; implicit exceptions on short responses are the subject of C08.',
+  design_ref='DESIGN.md section 3 C16',
+  note='Known findings (6 keys, 3 root causes): ValueError from read_segment beyond 2 KiB, ValueError from send_apdu when the CC announces '
+       'MLe/MLc > 255, raw CommunicationError through the ISO-DEP S(WTX) exchange. 9 infeasible reports are suppressed one by one with '
+       'anchor-checked reasons. One defect repaired (AssertionError from sector_select).',
+  technique='class-rooted interprocedural exception-escape analysis with literal-argument guard pruning (ast)')
 NA_REASON = {}
 def main():
     checks = []
